@@ -2,6 +2,10 @@
 
 from __future__ import annotations
 
+import copy
+import enum
+import pickle
+
 import numpy as np
 import scipp as sc
 
@@ -19,7 +23,14 @@ RULE = (
     'shard, data that carries its own L1 / L2 / Ltotal (effective, calibrated, other unit, float32 / integer) or '
     'the beams instead of the positions, two_theta through every public route, and per-pixel beams / positions '
     'that are nearly uniform (spread 0, 1e-12..1e-9 relative; noise, drift, one odd pixel; either or both beams; '
-    'beam norms 1e-6..1e5; 1-d and 2-d layouts); '
+    'beam norms 1e-6..1e5; 1-d and 2-d layouts); every calling convention the signatures allow (positional / '
+    'keyword / mixed / reversed keywords for the accessors and graph factories, keyword order for the kernels), '
+    'scatter flag as bool / numpy bool / int / numpy int / IntEnum, per-pixel dims named like graph nodes and '
+    'internal dims, containers with masks (pixel, bin, event level), variances, subclasses; every kernel as a '
+    'node of a caller-made transform_coords graph; lengths with variances; second use of the same data with '
+    'repr / copy / comparison / caught exceptions / fed-back results / customised graphs in between; 0..2^17+3 '
+    'beam vectors around powers of two, and one heavy case per run beyond 2^20 vectors (2^20+7, 2^21+5, '
+    '3 x 400001) judged element-wise; '
     'non-trivial unless a single axis-aligned pair; distinct = (function, unit, shape class, '
     'angle class, norm decade) signatures'
 )
@@ -49,12 +60,17 @@ class Monitors:
     def __init__(self, ctx):
         self.ctx = ctx
         self.origin = 'direct'
+        self.allowed_exc = ()   # exception types the driver expects from the call in flight (counted refusals)
+        self.seen = {}          # kernel name -> (result object of the last judged return, decided ok)
 
     def _case(self, name, ev):
         return {'function': name, 'origin': self.origin,
                 'args': {k: describe(v) for k, v in ev.args.items()}}
 
     def _raised(self, name, ev):
+        if ev.exc is not None and self.allowed_exc and isinstance(ev.exc, self.allowed_exc):
+            self.ctx.count(f'refusal seen inside {name}: {type(ev.exc).__name__}')
+            return True
         if ev.exc is not None:
             self.ctx.violation('kernel_raised', f'{name} raised {type(ev.exc).__name__}: {ev.exc}',
                                self._case(name, ev), function=name)
@@ -65,9 +81,13 @@ class Monitors:
         def h(ev):
             if self._raised(name, ev):
                 return
+            if self.origin == 'heavy' and ev.depth > 0:
+                # the norms two_theta takes internally: judged at depth 0 (direct / accessor calls) in the heavy case
+                self.ctx.count('heavy case: norm taken inside two_theta not judged again')
+                return
             try:
                 v = ev.args[argname]
-                want = geom.norm(_vals(v))
+                want = geom.norm_blocks(_vals(v))
                 got = _vals(ev.result).astype(si.LD)
                 err = si.relerr(got, want)
                 worst = float(np.max(err)) if err.size else 0.0
@@ -133,6 +153,26 @@ class Monitors:
         if worst > tol:
             self.ctx.violation('ltotal', f'total_beam_length: L1+L2 off by {worst:.3g}',
                                self._case(name, ev), function=name)
+            return
+        # first-order propagation of a sum of independent operands: the variances add (an operand without
+        # variances contributes none); scipp defines exactly this for `+`
+        if l1.variances is not None or l2.variances is not None:
+            try:
+                def var(x, f):
+                    if x.variances is None:
+                        return np.zeros(res.shape, dtype=si.LD)
+                    return np.broadcast_to(np.asarray(x.variances).astype(si.LD) * f * f, res.shape)
+                wantv = var(l1, f1) + var(l2, f2)
+                gotv = None if res.variances is None else np.asarray(res.variances).astype(si.LD)
+                dv = np.inf if gotv is None else (float(np.max(si.relerr(gotv, wantv))) if wantv.size else 0.0)
+            except Exception:  # noqa: BLE001
+                self.ctx.oracle_error(name + '.variances')
+                return
+            self.ctx.event('total_beam_length.variances')
+            self.ctx.dev('relerr.total_beam_length.variances', dv if np.isfinite(dv) else 1.0)
+            if not dv <= 4 * (si.EPS32 if f32 else EPS):
+                self.ctx.violation('ltotal_variances', 'total_beam_length: variances of L1+L2 are not var(L1)+var(L2) '
+                                   f'(relative deviation {dv:.3g})', self._case(name, ev), function=name)
 
     def total_no_scatter(self, ev):
         name = 'total_straight_beam_length_no_scatter'
@@ -142,7 +182,7 @@ class Monitors:
             s, p = ev.args['source_position'], ev.args['position']
             res = ev.result
             d = _bc(p, res) - _bc(s, res)
-            want = geom.norm(d)
+            want = geom.norm_blocks(d)
             err = si.relerr(_vals(res).astype(si.LD), want)
             worst = float(np.max(err)) if err.size else 0.0
         except Exception:  # noqa: BLE001
@@ -165,17 +205,18 @@ class Monitors:
             b1, b2 = ev.args['incident_beam'], ev.args['scattered_beam']
             res = ev.result
             # NB: the *original* argument objects; the kernel works on normalised copies
-            want = geom.angle(_bc(b1, res), _bc(b2, res))
+            want = geom.angle_blocks(_bc(b1, res), _bc(b2, res))
             got = _vals(res).astype(si.LD)
             err = np.abs(got - want)
             worst = float(np.max(err)) if err.size else 0.0
-            lo, hi = float(np.min(got)), float(np.max(got))
+            lo, hi = (float(np.min(got)), float(np.max(got))) if err.size else (0.0, 0.0)
         except Exception:  # noqa: BLE001
             self.ctx.oracle_error(name)
             return
         self.ctx.event(name)
         self.ctx.dev('abserr.two_theta', worst)
         c = self._case(name, ev)
+        self.seen[name] = (res, bool(np.all(np.isfinite(_vals(res))) and lo >= 0 and worst <= TOL_ANGLE))
         if res.unit != sc.Unit('rad') or res.dtype != sc.DType.float64:
             self.ctx.violation('wrong_unit_or_dims', f'two_theta: unit {res.unit} dtype {res.dtype}', c,
                                function=name)
@@ -186,7 +227,8 @@ class Monitors:
                                function=name)
         elif worst > TOL_ANGLE:
             i = int(np.argmax(err))
-            c['worst'] = {'got': repr(np.ravel(got)[i]), 'exact': repr(np.ravel(want)[i]), 'abserr': worst}
+            c['worst'] = {'got': repr(np.ravel(got)[i]), 'exact': repr(np.ravel(want)[i]), 'abserr': worst,
+                          'flat_index': i, 'of': int(err.size), 'n_beyond_tolerance': int(np.sum(err > TOL_ANGLE))}
             self.ctx.violation('two_theta_accuracy',
                                f'two_theta: absolute error {worst:.3g} rad > {TOL_ANGLE:g}', c,
                                function=name)
@@ -287,40 +329,119 @@ def invariance_family(rng, ctx, K, a, b, classes):
 
 
 CONTAINERS = ('dataarray', 'dataarray', 'dataarray_2d', 'dataarray_binned', 'dataarray_int', 'dataset_1', 'dataset_3',
-              'dataset_no_items')
+              'dataset_no_items', 'dataarray_masked', 'dataarray_binned_masked', 'dataarray_variances',
+              'dataarray_subclass', 'dataset_masked_items')
+# names the caller may give the per-pixel dimension: the usual one, names scipp / scippneutron use themselves for
+# dims or coordinates (graph nodes, event buffers, table rows, default names), and an arbitrary unique string
+DIM_NAMES = ('pixel', 'x', 'event', 'row', 'position', 'scattered_beam', 'two_theta', 'L1', 'Ltotal', 'tof', 'dim_0',
+             'detector_number', '3f2b9c1e-77aa-4d0e-9b1f-0c5d6e7f8a9b')
+GRAPH_NAMES = ('position', 'source_position', 'sample_position', 'incident_beam', 'scattered_beam', 'L1', 'L2',
+               'Ltotal', 'two_theta')
 
 
-def make_container(kind, coords, n):
+class _SubDataArray(sc.DataArray):
+    """A caller's subclass of DataArray (adds bookkeeping, delegates the computation)."""
+
+    def transform_coords(self, *args, **kwargs):
+        self.n_transform_calls = getattr(self, 'n_transform_calls', 0) + 1
+        return super().transform_coords(*args, **kwargs)
+
+
+def _binned(n, dim, masked):
+    sizes = np.arange(n) % 3
+    end = np.cumsum(sizes)
+    ev = 'event' if dim != 'event' else 'obs'
+    m = int(sizes.sum())
+    buf = sc.DataArray(sc.ones(dims=[ev], shape=[m], unit='counts'),
+                       coords={'tof': sc.arange(ev, float(m), unit='us')})
+    if masked:  # event-level mask
+        buf.masks['bad_event'] = sc.array(dims=[ev], values=np.arange(m) % 2 == 0)
+    return sc.bins(begin=sc.array(dims=[dim], values=end - sizes, unit=None, dtype='int64'),
+                   end=sc.array(dims=[dim], values=end, unit=None, dtype='int64'), dim=ev, data=buf)
+
+
+def make_container(kind, coords, n, dim='pixel'):
     """Every kind of object that carries beamline coordinates: the accessors depend on the coordinates only."""
+    outer = 'tof' if dim != 'tof' else 'frame'
     if kind == 'dataarray':
-        return sc.DataArray(sc.ones(dims=['pixel'], shape=[n]), coords=coords)
+        return sc.DataArray(sc.ones(dims=[dim], shape=[n]), coords=coords)
     if kind == 'dataarray_2d':
-        return sc.DataArray(sc.ones(dims=['tof', 'pixel'], shape=[2, n]), coords=coords)
+        return sc.DataArray(sc.ones(dims=[outer, dim], shape=[2, n]), coords=coords)
     if kind == 'dataarray_int':
-        return sc.DataArray(sc.arange('pixel', n, unit='counts'), coords=coords)
+        return sc.DataArray(sc.arange(dim, n, unit='counts'), coords=coords)
+    if kind == 'dataarray_variances':
+        return sc.DataArray(sc.ones(dims=[dim], shape=[n], dtype='float32', with_variances=True, unit='counts'),
+                            coords=coords)
+    if kind == 'dataarray_subclass':
+        return _SubDataArray(sc.ones(dims=[dim], shape=[n]), coords=coords)
+    if kind == 'dataarray_masked':  # per-pixel masks (one of them masking everything) and a mask of the outer dim
+        return sc.DataArray(sc.ones(dims=[outer, dim], shape=[2, n]), coords=coords,
+                            masks={'odd': sc.array(dims=[dim], values=np.arange(n) % 2 == 1),
+                                   'all': sc.ones(dims=[dim], shape=[n], dtype=bool),
+                                   'frame': sc.array(dims=[outer], values=[True, False])})
     if kind == 'dataarray_binned':
-        sizes = np.arange(n) % 3
-        end = np.cumsum(sizes)
-        buf = sc.DataArray(sc.ones(dims=['event'], shape=[int(sizes.sum())], unit='counts'),
-                           coords={'tof': sc.arange('event', float(sizes.sum()), unit='us')})
-        binned = sc.bins(begin=sc.array(dims=['pixel'], values=end - sizes, unit=None, dtype='int64'),
-                         end=sc.array(dims=['pixel'], values=end, unit=None, dtype='int64'), dim='event', data=buf)
-        return sc.DataArray(binned, coords=coords)
+        return sc.DataArray(_binned(n, dim, False), coords=coords)
+    if kind == 'dataarray_binned_masked':  # bin-level and event-level masks
+        return sc.DataArray(_binned(n, dim, True), coords=coords,
+                            masks={'bad_bin': sc.array(dims=[dim], values=np.arange(n) % 3 == 0)})
     if kind == 'dataset_1':
-        return sc.Dataset({'a': sc.ones(dims=['pixel'], shape=[n])}, coords=coords)
+        return sc.Dataset({'a': sc.ones(dims=[dim], shape=[n])}, coords=coords)
     if kind == 'dataset_3':
-        return sc.Dataset({'a': sc.ones(dims=['pixel'], shape=[n]), 'b': sc.arange('pixel', n),
-                           'c': sc.zeros(dims=['pixel'], shape=[n], dtype='float32', with_variances=True)},
+        return sc.Dataset({'a': sc.ones(dims=[dim], shape=[n]), 'b': sc.arange(dim, n),
+                           'c': sc.zeros(dims=[dim], shape=[n], dtype='float32', with_variances=True)},
                           coords=coords)
+    if kind == 'dataset_masked_items':
+        a = sc.DataArray(sc.ones(dims=[dim], shape=[n]), coords=coords,
+                         masks={'m': sc.array(dims=[dim], values=np.arange(n) % 2 == 0)})
+        b = sc.DataArray(sc.zeros(dims=[dim], shape=[n]), coords=coords)
+        return sc.Dataset({'a': a, 'b': b})
     if kind == 'dataset_no_items':
         return sc.Dataset(coords=coords)
     raise ValueError(kind)
 
 
-FLAG_FORMS = (bool, np.bool_, int)
+class FlagEnum(enum.IntEnum):
+    """The scatter flag as a member of a caller's integer enumeration."""
+    NO = 0
+    YES = 1
 
 
-def positions_case(rng, ctx, scn, K, mon, forced=None, flag_form=None):
+# the scatter flag is a truth value: callers also pass numpy booleans (np.any(...), HDF5 attributes), 0/1 as Python
+# or numpy integers, members of an IntEnum
+FLAG_FORMS = (bool, np.bool_, int, np.int64, FlagEnum)
+# every way the documented signatures allow a call to be written: accessor(da), Ltotal(da, scatter),
+# graph.beamline.Ltotal(scatter) / beamline(scatter) are positional-or-keyword; the kernels are keyword-only
+CONVENTIONS = ('positional', 'keyword', 'mixed', 'keyword, reversed order')
+
+
+def call_accessor(scn, name, da, conv, *flag):
+    f = getattr(scn, name)
+    if not flag:
+        return f(da) if conv in ('positional', 'mixed') else f(da=da)
+    if conv == 'positional':
+        return f(da, flag[0])
+    if conv == 'mixed':
+        return f(da, scatter=flag[0])
+    if conv == 'keyword':
+        return f(da=da, scatter=flag[0])
+    return f(scatter=flag[0], da=da)
+
+
+def call_factory(GB, name, conv, *flag):
+    f = getattr(GB, name)
+    if not flag:
+        return f()
+    return f(flag[0]) if conv in ('positional', 'mixed') else f(scatter=flag[0])
+
+
+def kcall(f, reverse=False, **kw):
+    """A keyword-only kernel with its arguments in documented or reversed order (or from a mapping)."""
+    if reverse:
+        return f(**dict(reversed(list(kw.items()))))
+    return f(**kw)
+
+
+def positions_case(rng, ctx, scn, K, mon, forced=None, flag_form=None, conv='mixed', dim='pixel'):
     """Accessors on data arrays / datasets, incl. translation invariance."""
     n = int(rng.integers(1, 33))
     unit = LEN_UNITS[rng.integers(0, 5)]
@@ -342,45 +463,61 @@ def positions_case(rng, ctx, scn, K, mon, forced=None, flag_form=None):
     container = CONTAINERS[int(rng.integers(0, len(CONTAINERS)))] if forced is None else forced
     ctx.hit('accessor container ' + container)
 
+    ctx.hit('accessor calling convention: ' + conv)
+    ctx.hit('per-pixel dim named ' + repr(dim))
+
     def build(shift):
         coords = {'source_position': vec(source + shift, unit), 'sample_position': vec(sample + shift, unit),
-                  'position': vec(pos + shift[None, :], unit)}
-        return make_container(container, coords, n)
+                  'position': vec(pos + shift[None, :], unit, dims=(dim,))}
+        return make_container(container, coords, n, dim)
 
     da = build(np.zeros(3))
-    case = {'family': 'accessors', 'container': container, 'unit': unit, 'n': n,
+    case = {'family': 'accessors', 'container': container, 'unit': unit, 'n': n, 'convention': conv, 'dim': dim,
             'source': [float(x).hex() for x in source], 'sample': [float(x).hex() for x in sample],
             'position0': [float(x).hex() for x in pos[0]]}
     mon.origin = 'accessor'
-    # the scatter flag is a truth value: callers also pass numpy booleans (np.any(...), HDF5 attributes) or 0/1
     form = FLAG_FORMS[int(rng.integers(0, len(FLAG_FORMS)))] if flag_form is None else flag_form
     ctx.hit('scatter flag given as ' + form.__name__)
     case['scatter_flag_type'] = form.__name__
-    got = {
-        'L1': scn.L1(da), 'L2': scn.L2(da), 'two_theta': scn.two_theta(da),
-        'Ltotal_scatter': scn.Ltotal(da, scatter=form(True)), 'Ltotal_noscatter': scn.Ltotal(da, scatter=form(False)),
-        'incident_beam': scn.incident_beam(da), 'scattered_beam': scn.scattered_beam(da),
-    }
+    got = {}
+    for k in ('L1', 'L2', 'two_theta', 'Ltotal_scatter', 'Ltotal_noscatter', 'incident_beam', 'scattered_beam'):
+        try:
+            got[k] = (call_accessor(scn, 'Ltotal', da, conv, form(k == 'Ltotal_scatter')) if k.startswith('Ltotal')
+                      else call_accessor(scn, k, da, conv))
+        except Exception as e:  # noqa: BLE001
+            mon.origin = 'direct'
+            ctx.violation('accessor_raised', f'scippneutron.{k.split("_")[0] if k.startswith("Ltotal") else k} called '
+                          f'in the {conv} convention (flag as {form.__name__}) on a {container} with per-pixel dim '
+                          f'{dim!r} raised {type(e).__name__}: {e}', dict(case, accessor=k), container=container)
+            return ('accessors', container, unit, conv, 'raised')
+        ctx.event('accessor call: ' + conv)
     # the single-purpose graph factories are a second public route to the same coordinates
     from scippneutron.conversion.graph import beamline as GB
-    for k, fac in (('L1', GB.L1), ('L2', GB.L2), ('two_theta', GB.two_theta), ('incident_beam', GB.incident_beam),
-                   ('scattered_beam', GB.scattered_beam),
-                   ('Ltotal_scatter', lambda: GB.Ltotal(scatter=form(True))),
-                   ('Ltotal_noscatter', lambda: GB.Ltotal(scatter=form(False)))):
-        name = k.split('_')[0] if k.startswith('Ltotal') else k
+    renamable = dim in GRAPH_NAMES  # transform_coords renames a dim after the coordinate it turns into
+    for k, fac in (('L1', lambda: call_factory(GB, 'L1', conv)), ('L2', lambda: call_factory(GB, 'L2', conv)),
+                   ('two_theta', lambda: call_factory(GB, 'two_theta', conv)),
+                   ('incident_beam', lambda: call_factory(GB, 'incident_beam', conv)),
+                   ('scattered_beam', lambda: call_factory(GB, 'scattered_beam', conv)),
+                   ('Ltotal_scatter', lambda: call_factory(GB, 'Ltotal', conv, form(True))),
+                   ('Ltotal_noscatter', lambda: call_factory(GB, 'Ltotal', conv, form(False))),
+                   ('beamline_scatter', lambda: call_factory(GB, 'beamline', conv, form(True))),
+                   ('beamline_noscatter', lambda: call_factory(GB, 'beamline', conv, form(False)))):
+        name = 'Ltotal' if k.startswith(('Ltotal', 'beamline')) else k
+        ref = got['Ltotal_' + k.split('_')[1]] if k.startswith('beamline') else got[k]
         try:
-            r = da.transform_coords(name, graph=fac()).coords[name]
+            r = da.transform_coords(name, graph=fac(), rename_dims=not renamable).coords[name]
         except Exception as e:  # noqa: BLE001
             ctx.violation('graph_factory_raised', f'transform_coords({name!r}, graph=graph.beamline.{k}()) on a '
-                          f'{container} raised {type(e).__name__}: {e}', dict(case, factory=k), factory=k)
+                          f'{container} ({conv} convention, dim {dim!r}) raised {type(e).__name__}: {e}',
+                          dict(case, factory=k), factory=k)
             continue
         ctx.event('graph_factory.' + k)
-        if r.unit != got[k].unit or r.dims != got[k].dims or not np.array_equal(
-                np.asarray(r.values), np.asarray(got[k].values), equal_nan=True):
+        if r.unit != ref.unit or r.dims != ref.dims or not np.array_equal(
+                np.asarray(r.values), np.asarray(ref.values), equal_nan=True):
             ctx.violation('graph_factory', f'graph.beamline.{k}() gives a different {name} than the accessor / the '
                           'full beamline graph for the same positions', dict(case, factory=k), factory=k)
     for nm_, ref_ in (('position', pos), ('source_position', source), ('sample_position', sample)):
-        g_ = getattr(scn, nm_)(da)
+        g_ = call_accessor(scn, nm_, da, conv)
         ctx.event('accessor.' + nm_)
         if g_.unit != sc.Unit(unit) or not np.array_equal(np.broadcast_to(np.asarray(g_.values), np.shape(ref_)), ref_):
             ctx.violation('accessor', f'scippneutron.{nm_} does not return the supplied {nm_}',
@@ -429,23 +566,38 @@ def positions_case(rng, ctx, scn, K, mon, forced=None, flag_form=None):
         ctx.violation('invariance', f'two_theta changes under translation: {float(d[i]):.3g} rad '
                       f'(bound {float(tol[i]):.3g})', dict(case, T=[float(x) for x in T], index=i),
                       transform='translation')
-    return ('accessors', container, unit, tuple(sorted(set(classes))))
+    for k, r in got.items():  # per-pixel results keep the caller's dimension, whatever its name
+        per_pixel = k in ('L2', 'two_theta', 'Ltotal_scatter', 'Ltotal_noscatter', 'scattered_beam')
+        if r.dims != ((dim,) if per_pixel else ()):
+            ctx.violation('accessor', f'scippneutron.{k} on data with per-pixel dim {dim!r} has dims {r.dims}',
+                          dict(case, accessor=k), accessor=k)
+    return ('accessors', container, unit, conv, tuple(sorted(set(classes))))
 
 
-def direct_case(rng, ctx, K):
+def direct_case(rng, ctx, K, i=0):
     n = int(rng.integers(1, 65))
     scalar = rng.random() < 0.2
     a, b, classes = gen_pairs(rng, 1 if scalar else n, ctx)
     u1, u2 = LEN_UNITS[rng.integers(0, 5)], LEN_UNITS[rng.integers(0, 5)]
     fn = rng.integers(0, 6)
+    # the name of the per-pixel dimension is the caller's; the keyword-only kernels take their arguments in any order
+    dim = DIM_NAMES[(i // 2) % len(DIM_NAMES)]
+    rev = i % 2 == 1
+    ctx.hit('kernel keywords in ' + ('reversed' if rev else 'documented') + ' order')
+    if not scalar:
+        ctx.hit('kernel operands along a dim named ' + repr(dim))
+
+    def V(x, u):
+        return vec(x, u, dims=(dim,))
+
     if scalar:
-        va, vb = vec(a[0], u1), vec(b[0], u2)
+        va, vb = V(a[0], u1), V(b[0], u2)
     else:
-        va = vec(a[0], u1) if rng.random() < 0.5 else vec(a, u1)  # common incident beam or per pixel
-        vb = vec(b, u2)
+        va = V(a[0], u1) if rng.random() < 0.5 else V(a, u1)  # common incident beam or per pixel
+        vb = V(b, u2)
     if not scalar and rng.random() < 0.2:
         # per-pixel incident beam with one common scattered beam (symmetry in the two beams includes shapes)
-        va, vb = vec(a, u1), vec(b[0], u2)
+        va, vb = V(a, u1), V(b[0], u2)
         ctx.hit('per-pixel incident, scalar scattered')
     if not scalar and rng.random() < 0.15:
         # the two beams vary along *different* dimensions (several sources x several detectors); dimension
@@ -459,7 +611,7 @@ def direct_case(rng, ctx, K):
                                      'per_pixel' if va.ndim and vb.ndim else
                                      'scalar_incident' if vb.ndim else 'scalar_scattered')
     if fn == 0:
-        K.two_theta(incident_beam=va, scattered_beam=vb)
+        kcall(K.two_theta, rev, incident_beam=va, scattered_beam=vb)
         name = 'two_theta'
     elif fn == 1:
         K.L1(incident_beam=va)
@@ -467,22 +619,24 @@ def direct_case(rng, ctx, K):
         name = 'L1L2'
     elif fn == 2:
         if vb.ndim == 0:
-            vb = vec(b, u2)
-        K.straight_incident_beam(source_position=va, sample_position=vec(b[0] if va.ndim == 0 else b, u1))
-        K.straight_scattered_beam(position=vb, sample_position=vec(a[0], u2))
+            vb = V(b, u2)
+        kcall(K.straight_incident_beam, rev, source_position=va,
+              sample_position=V(b[0] if va.ndim == 0 else b, u1))
+        kcall(K.straight_scattered_beam, rev, position=vb, sample_position=V(a[0], u2))
         name = 'beams'
     elif fn == 3:
-        K.total_straight_beam_length_no_scatter(source_position=va, position=vec(b, u1) if not scalar else vec(b[0], u1))
+        kcall(K.total_straight_beam_length_no_scatter, rev, source_position=va,
+              position=V(b, u1) if not scalar else V(b[0], u1))
         name = 'Ltotal_noscatter'
     else:
         f32 = rng.random() < 0.4
         dt = 'float32' if f32 else 'float64'
-        l1 = sc.array(dims=['pixel'], values=np.linalg.norm(a, axis=1), unit=u1, dtype=dt)
-        l2 = sc.array(dims=['pixel'], values=np.linalg.norm(b, axis=1), unit=u1,
+        l1 = sc.array(dims=[dim], values=np.linalg.norm(a, axis=1), unit=u1, dtype=dt)
+        l2 = sc.array(dims=[dim], values=np.linalg.norm(b, axis=1), unit=u1,
                       dtype='float64' if rng.random() < 0.3 else dt)
         if scalar:
-            l1, l2 = l1['pixel', 0], l2['pixel', 0]
-        K.total_beam_length(L1=l1, L2=l2)
+            l1, l2 = l1[dim, 0], l2[dim, 0]
+        kcall(K.total_beam_length, rev, L1=l1, L2=l2)
         name = 'Ltotal_scatter:' + dt
     dec = int(np.floor(np.log10(np.linalg.norm(a[0])) / 3))
     trivial = scalar and u1 == 'm' and u2 == 'm' and classes[0] == 'random' and name == 'two_theta'
@@ -795,7 +949,463 @@ def nearly_uniform_positions_case(rng, ctx, scn, mon, where, spread, form, decad
     return ('nearly_uniform_positions', where, spread, form, decade, unit, container)
 
 
-def forced_sweeps(rng, ctx, scn, K, mon, index, rep):
+# ------------------------------------------------------------ geometry + generic judge ---
+class Geometry:
+    """One generated beamline (float64 positions as the code sees them) and its Euclidean quantities."""
+
+    def __init__(self, rng, ctx, n, unit=None, dim='pixel'):
+        self.n, self.dim = n, dim
+        self.unit = LEN_UNITS[rng.integers(0, 5)] if unit is None else unit
+        a, b, self.classes = gen_pairs(rng, n, ctx)
+        self.sample = rng.normal(size=3) * 10.0 ** rng.uniform(-3, 3) * (rng.random() < 0.7)
+        self.source = self.sample - a[0]
+        self.pos = self.sample[None, :] + b
+        self.inc = self.sample - self.source            # IEEE float64 differences: what the beams must be
+        self.sca = self.pos - self.sample[None, :]
+
+    def position_coords(self, prefix=''):
+        return {prefix + 'source_position': vec(self.source, self.unit),
+                prefix + 'sample_position': vec(self.sample, self.unit),
+                prefix + 'position': vec(self.pos, self.unit, dims=(self.dim,))}
+
+    def want(self):
+        l1 = geom.norm(self.inc)
+        l2 = geom.norm(self.sca)
+        return {'incident_beam': ('exact', self.inc), 'scattered_beam': ('exact', self.sca),
+                'L1': ('rel', l1), 'L2': ('rel', l2),
+                'two_theta': ('angle', geom.angle_blocks(self.inc, self.sca)),
+                'Ltotal_scatter': ('rel', l1.astype(np.float64).astype(si.LD) + l2.astype(np.float64).astype(si.LD)),
+                'Ltotal_noscatter': ('rel', geom.norm(self.pos - self.source[None, :]))}
+
+
+def deviation(r, how, w, unit):
+    """(deviation, bad) of a returned variable against the Euclidean value ``w``."""
+    g = np.asarray(r.values)
+    if np.ndim(g) > np.ndim(w):
+        return np.inf, True
+    if how == 'exact':
+        bad = not np.array_equal(np.broadcast_to(g, np.shape(w)), w) or r.unit != sc.Unit(unit)
+        return float(bad), bad
+    g = np.broadcast_to(g.astype(si.LD), np.shape(w))
+    if how == 'angle':
+        d = float(np.max(np.abs(g - w))) if g.size else 0.0
+        return d, not d <= TOL_ANGLE or r.unit != sc.Unit('rad')
+    d = float(np.max(si.relerr(g, w))) if g.size else 0.0
+    return d, not d <= 8 * EPS or r.unit != sc.Unit(unit)
+
+
+def accessor_results(scn, da, names=None):
+    names = names or ('L1', 'L2', 'two_theta', 'Ltotal_scatter', 'Ltotal_noscatter', 'incident_beam',
+                      'scattered_beam')
+    return {k: (scn.Ltotal(da, scatter=k.endswith('_scatter')) if k.startswith('Ltotal') else getattr(scn, k)(da))
+            for k in names}
+
+
+def judge_results(ctx, got, want, unit, case, ev, kind='accessor', **keys):
+    for k, r in got.items():
+        how, w = want[k]
+        try:
+            d, bad = deviation(r, how, w, unit)
+        except Exception:  # noqa: BLE001
+            ctx.oracle_error(ev)
+            continue
+        ctx.event(ev)
+        ctx.event(ev + '.' + k)
+        ctx.dev(ev + '.' + k, d if np.isfinite(d) else 1.0)
+        if bad:
+            ctx.violation(kind, f'{k} ({case["family"]}): deviation {d:.3g} from the Euclidean definition or wrong '
+                          f'unit ({r.unit})', dict(case, quantity=k), accessor=k, **keys)
+
+
+# ------------------------------------------------- kernels as nodes of a caller's graph ---
+# (output coordinate, documented parameter names = the coordinates the node consumes)
+KERNEL_NODES = {
+    'straight_incident_beam': ('incident_beam', ('source_position', 'sample_position')),
+    'straight_scattered_beam': ('scattered_beam', ('position', 'sample_position')),
+    'L1': ('L1', ('incident_beam',)),
+    'L2': ('L2', ('scattered_beam',)),
+    'two_theta': ('two_theta', ('incident_beam', 'scattered_beam')),
+    'total_beam_length': ('Ltotal', ('L1', 'L2')),
+    'total_straight_beam_length_no_scatter': ('Ltotal', ('source_position', 'position')),
+}
+NODE_STYLES = ('node on coordinates named like its parameters', 'node with aliased input coordinates')
+
+
+def graph_node_case(rng, ctx, K, mon, index, rep):
+    """Every kernel used directly as a node of a caller-made ``transform_coords`` graph: each documented
+    parameter is looked up as a coordinate, nothing else may be required."""
+    kinds = sorted(set(CONTAINERS))
+    for j, (kname, (out, params)) in enumerate(KERNEL_NODES.items()):
+        style = NODE_STYLES[(j + index + rep) % 2]
+        container = kinds[(3 * j + index + rep) % len(kinds)]
+        dim = DIM_NAMES[(5 * j + index + rep) % len(DIM_NAMES)]
+        if dim in GRAPH_NAMES:
+            dim = 'pixel'
+        g = Geometry(rng, ctx, int(rng.integers(2, 17)), dim=dim)
+        l1 = float(np.linalg.norm(g.inc))
+        l2 = np.linalg.norm(g.sca, axis=1)
+        have = {**g.position_coords(), 'incident_beam': vec(g.inc, g.unit),
+                'scattered_beam': vec(g.sca, g.unit, dims=(dim,)), 'L1': sc.scalar(l1, unit=g.unit),
+                'L2': sc.array(dims=[dim], values=l2, unit=g.unit)}
+        want = g.want()
+        want['Ltotal_scatter'] = ('rel', si.LD(l1) + l2.astype(si.LD))
+        key = out if out != 'Ltotal' else ('Ltotal_scatter' if kname == 'total_beam_length' else 'Ltotal_noscatter')
+        if style == NODE_STYLES[0]:
+            coords = {p_: have[p_] for p_ in params}
+            graph = {out: getattr(K, kname)}
+        else:
+            coords = {'my_' + p_: have[p_] for p_ in params}
+            graph = {out: getattr(K, kname), **{p_: 'my_' + p_ for p_ in params}}
+        da = make_container(container, coords, g.n, dim)
+        ctx.hit('kernel as graph node: ' + kname)
+        ctx.hit('graph node style: ' + style)
+        case = {'family': f'conversion.beamline.{kname} as the node {out!r} of a caller-made graph ({style})',
+                'container': container, 'dim': dim, 'unit': g.unit, 'n': g.n,
+                'coords': {k: describe(v) for k, v in coords.items()}}
+        mon.origin = 'graph node'
+        try:
+            r = da.transform_coords(out, graph=graph).coords[out]
+        except Exception as e:  # noqa: BLE001
+            ctx.violation('graph_node_raised', f'transform_coords({out!r}, graph={{{out!r}: conversion.beamline.'
+                          f'{kname}, ...}}) on data carrying exactly the documented inputs {list(params)} raised '
+                          f'{type(e).__name__}: {e}', case, function=kname)
+            continue
+        finally:
+            mon.origin = 'direct'
+        judge_results(ctx, {key: r}, want, g.unit, case, 'graph_node', kind='graph_node')
+        ctx.case(('graph_node', kname, style, container, g.unit))
+
+
+# --------------------------------------------------------- lengths carrying variances ---
+# vector3 positions / beams cannot carry variances in scipp; flight-path lengths can (calibrated L2 with an
+# uncertainty). Values must still be right; the variance of L1 + L2 is var(L1) + var(L2) (judged by the
+# total_beam_length monitor). scipp refuses to broadcast an operand with variances: a counted refusal.
+VARIANCE_FORMS = ('L1 and L2 per pixel, both with variances', 'only L2 with variances', 'only L1 with variances',
+                  'float32 lengths with variances', 'scalar L1 with variances x per-pixel L2 (broadcast)',
+                  'supplied L2 with variances next to the positions', 'scalar L1 and L2, both with variances')
+
+
+def variances_case(rng, ctx, scn, K, mon, form, index):
+    dim = DIM_NAMES[index % len(DIM_NAMES)]
+    if dim in GRAPH_NAMES:
+        dim = 'pixel'
+    g = Geometry(rng, ctx, int(rng.integers(2, 17)), dim=dim)
+    l1 = float(np.linalg.norm(g.inc))
+    l2 = np.linalg.norm(g.sca, axis=1)
+    dt = 'float32' if form.startswith('float32') else 'float64'
+
+    def L(values, var, scalar=False):
+        values = np.asarray(values, dtype=np.float64)
+        v = None if var is None else (np.abs(values) * rng.uniform(1e-6, 1e-2, size=values.shape)) ** 2
+        if scalar:
+            return sc.scalar(float(values), variance=None if v is None else float(v), unit=g.unit, dtype=dt)
+        return sc.array(dims=[dim], values=values, variances=v, unit=g.unit, dtype=dt)
+
+    ctx.hit('lengths with variances: ' + form)
+    case = {'family': 'lengths with variances: ' + form, 'unit': g.unit, 'n': g.n, 'dim': dim}
+    refusal_expected = 'broadcast' in form
+    mon.origin = 'variances'
+    mon.allowed_exc = (sc.VariancesError,) if refusal_expected else ()
+    try:
+        if form.startswith('supplied'):
+            da = make_container('dataarray', {**g.position_coords(), 'L2': L(l2 * (1 + 1e-3), True)}, g.n, dim)
+            got = accessor_results(scn, da, ('two_theta', 'L1', 'incident_beam', 'scattered_beam', 'Ltotal_noscatter'))
+            judge_results(ctx, got, g.want(), g.unit, case, 'variances.accessor')
+            r = scn.Ltotal(da, scatter=True)     # L1 (computed, no variances) + supplied L2: kernel monitor judges
+            if r.variances is None:
+                ctx.violation('ltotal_variances', 'scippneutron.Ltotal drops the variances of the supplied L2',
+                              case, function='Ltotal')
+        else:
+            if form.startswith('scalar L1 and L2'):
+                a, b = L(l1, True, scalar=True), L(l2[0], True, scalar=True)
+            elif refusal_expected:
+                a, b = L(l1, True, scalar=True), L(l2, True)
+            else:
+                a = L(np.full(g.n, l1), None if form == 'only L2 with variances' else True)
+                b = L(l2, None if form == 'only L1 with variances' else True)
+            try:
+                kcall(K.total_beam_length, index % 2 == 1, L1=a, L2=b)
+                if refusal_expected:
+                    ctx.count('not refused: broadcast of a length with variances')
+            except sc.VariancesError:
+                if not refusal_expected:
+                    raise
+                ctx.count('refused by scipp (VariancesError): broadcast of a length with variances')
+        ctx.event('variances')
+    finally:
+        mon.origin = 'direct'
+        mon.allowed_exc = ()
+    return ('variances', form, g.unit, dt)
+
+
+# -------------------------------------- second use, fed-back results, calls after an exception, display ---
+BETWEEN = ('nothing (same object again)', 'repr / str of the data', 'shallow copy', 'deep copy',
+           'comparison (== / identical)', 'an exception raised and caught', 'results fed back as coordinates',
+           'results fed back into the kernels', 'graph objects displayed / copied / pickled / customised')
+
+
+def second_use_case(rng, ctx, scn, K, mon, index, rep):
+    """The same data used a second time, with something harmless happening between the two computational calls:
+    every result of the second call has to be the Euclidean value of the (unchanged) positions again."""
+    from scippneutron.conversion.graph import beamline as GB
+
+    kinds = sorted(set(CONTAINERS))
+    for j, between in enumerate(BETWEEN):
+        container = kinds[(j + index + 2 * rep) % len(kinds)]
+        g = Geometry(rng, ctx, int(rng.integers(2, 17)))
+        da = make_container(container, g.position_coords(), g.n)
+        want = g.want()
+        case = {'family': 'second use of the same data; in between: ' + between, 'container': container,
+                'unit': g.unit, 'n': g.n, 'coords': {k: describe(v) for k, v in da.coords.items()}}
+        ctx.hit('second use, in between: ' + between)
+        mon.origin = 'second use'
+        try:
+            first = accessor_results(scn, da)
+            judge_results(ctx, first, want, g.unit, case, 'second_use.first', between=between)
+            subject = da
+            if between.startswith('repr'):
+                repr(da), str(da), repr(first['two_theta']), str(first['scattered_beam'])
+                if hasattr(da, '_repr_html_'):
+                    da._repr_html_()
+            elif between == 'shallow copy':
+                subject = copy.copy(da)
+            elif between == 'deep copy':
+                subject = copy.deepcopy(da)
+            elif between.startswith('comparison'):
+                sc.identical(da, copy.deepcopy(da))
+                _ = da.coords['position'] == da.coords['position']
+                _ = first['two_theta'] == first['two_theta']
+                sc.identical(first['L2'], first['Ltotal_scatter'])
+            elif between.startswith('an exception'):
+                _exceptions_in_between(ctx, scn, K, mon, da, g)
+            elif between == 'results fed back as coordinates':
+                fed = {k: first[k] for k in ('incident_beam', 'scattered_beam', 'L1', 'L2', 'two_theta')}
+                fed['Ltotal'] = first['Ltotal_scatter']
+                subject = da.assign_coords(fed) if isinstance(da, sc.DataArray) else da.assign_coords(fed)
+            elif between == 'results fed back into the kernels':
+                fb = {'two_theta': K.two_theta(incident_beam=first['incident_beam'],
+                                               scattered_beam=first['scattered_beam']),
+                      'L1': K.L1(incident_beam=first['incident_beam']),
+                      'L2': K.L2(scattered_beam=first['scattered_beam']),
+                      'Ltotal_scatter': K.total_beam_length(L1=first['L1'], L2=first['L2'])}
+                judge_results(ctx, fb, want, g.unit, case, 'second_use.kernels_on_results', between=between)
+                # ... and once more on the same result objects (they are still the beams they were)
+                fb2 = {'two_theta': K.two_theta(incident_beam=first['incident_beam'],
+                                                scattered_beam=first['scattered_beam'])}
+                judge_results(ctx, fb2, want, g.unit, case, 'second_use.kernels_on_results', between=between)
+                judge_results(ctx, {k: first[k] for k in ('incident_beam', 'scattered_beam', 'L1', 'L2')}, want,
+                              g.unit, dict(case, note='result objects after they were used as kernel inputs'),
+                              'second_use.results_after_reuse', between=between)
+            elif between.startswith('graph objects'):
+                _graph_objects_in_between(ctx, GB, da, want, g.unit, case, between)
+            names = None
+            if between == 'results fed back as coordinates':
+                # the stored Ltotal (with scattering) takes precedence for both flags: not judged
+                names = ('L1', 'L2', 'two_theta', 'incident_beam', 'scattered_beam')
+                ctx.count('not judged: Ltotal of data that carries a fed-back Ltotal', 2)
+            second = accessor_results(scn, subject, names)
+            judge_results(ctx, second, want, g.unit, case, 'second_use.second', between=between)
+            ctx.case(('second_use', between, container, g.unit))
+        except Exception as e:  # noqa: BLE001
+            ctx.violation('accessor_raised', f'second use of a {container} (in between: {between}) raised '
+                          f'{type(e).__name__}: {e}', case, container=container)
+        finally:
+            mon.origin = 'direct'
+            mon.allowed_exc = ()
+
+
+def _exceptions_in_between(ctx, scn, K, mon, da, g):
+    """Calls that the unchanged tree refuses (scipp's own unit / dimension / lookup errors); each is counted."""
+    def refused(label, f, *exc):
+        mon.allowed_exc = exc
+        try:
+            f()
+            ctx.count('not refused: ' + label)
+        except exc as e:
+            ctx.count(f'refused ({type(e).__name__}): ' + label)
+        finally:
+            mon.allowed_exc = ()
+
+    refused('two_theta of beams with different lengths of the same dim', lambda: K.two_theta(
+        incident_beam=vec(np.ones((g.n + 1, 3)), g.unit), scattered_beam=vec(g.sca, g.unit)), sc.DimensionError)
+    refused('total_beam_length of a length and a time', lambda: K.total_beam_length(
+        L1=sc.scalar(1.0, unit='m'), L2=sc.scalar(1.0, unit='s')), sc.UnitError)
+    refused('accessor on data without a position', lambda: scn.two_theta(da.drop_coords('position')), Exception)
+    refused('straight_scattered_beam of positions in m and s', lambda: K.straight_scattered_beam(
+        position=vec(g.pos, 'm'), sample_position=vec(g.sample, 's')), sc.UnitError)
+
+
+def _graph_objects_in_between(ctx, GB, da, want, unit, case, between):
+    """The graphs the factories hand out are plain dicts owned by the caller."""
+    g1 = GB.beamline(scatter=True)
+    repr(g1), str(g1)
+    g2 = copy.deepcopy(g1)
+    g3 = pickle.loads(pickle.dumps(g1))
+    _ = g1 == g2, g1 == g3
+    for label, gr in (('deep copy of beamline(scatter=True)', g2), ('pickled beamline(scatter=True)', g3)):
+        r = {k: da.transform_coords(k.split('_')[0] if k.startswith('Ltotal') else k, graph=gr).coords[
+            k.split('_')[0] if k.startswith('Ltotal') else k] for k in ('two_theta', 'Ltotal_scatter', 'L2')}
+        judge_results(ctx, r, want, unit, dict(case, graph=label), 'second_use.graph_copy', kind='graph_factory',
+                      between=between)
+    # the caller customises every graph it was given; the next graphs must be complete again
+    for fac in (lambda: GB.beamline(scatter=True), lambda: GB.beamline(scatter=False), GB.two_theta, GB.L1, GB.L2,
+                lambda: GB.Ltotal(scatter=True), lambda: GB.Ltotal(scatter=False), GB.incident_beam,
+                GB.scattered_beam):
+        gr = fac()
+        for k in list(gr):
+            gr[k] = 'customised_' + k
+        gr.clear()
+    fresh = {'two_theta': GB.two_theta(), 'L1': GB.L1(), 'L2': GB.L2(), 'Ltotal_scatter': GB.Ltotal(scatter=True),
+             'Ltotal_noscatter': GB.Ltotal(scatter=False), 'incident_beam': GB.incident_beam(),
+             'scattered_beam': GB.scattered_beam()}
+    r = {k: da.transform_coords(k.split('_')[0] if k.startswith('Ltotal') else k, graph=gr).coords[
+        k.split('_')[0] if k.startswith('Ltotal') else k] for k, gr in fresh.items()}
+    judge_results(ctx, r, want, unit, dict(case, graph='factories after the caller customised earlier graphs'),
+                  'second_use.graph_fresh', kind='graph_factory', between=between)
+
+
+# ----------------------------------------------------------------- sizes ---
+# number of beam vectors: empty, tiny, around powers of two (buffer / block / thread-grain sizes), and beyond
+# 2**20 in the heavy case
+SIZE_POINTS = (0, 1, 2, 3, 255, 256, 257, 1023, 1025, 4097, 8191, 8193, 65537, (1 << 17) + 3)
+
+
+def bulk_pairs(rng, shape, incident):
+    """float64 scattered beams of pixel shape ``shape`` (norms log-uniform 1e-6..1e6) for the given incident
+    beam(s) (broadcastable to shape + (3,)). Every 4093rd pixel (every 3rd of a small array) is in a degenerate
+    angle class (0, pi, ~1e-9, pi - ~1e-9, pi/2, ~1e-12); all built vectorised in float64 -- whatever comes out
+    is judged against the exact angle of the float64 vectors."""
+    n = int(np.prod(shape, dtype=np.int64))
+    b = rng.normal(size=(n, 3)) * 10.0 ** rng.uniform(-6, 6, size=(n, 1))
+    if n == 0:
+        return b.reshape(*shape, 3)
+    inc = np.broadcast_to(np.asarray(incident, dtype=np.float64), (*shape, 3)).reshape(n, 3)
+    m = shape[-1]
+    idx = np.arange(0, n, 4093 if n > 4093 else 3)
+    if m > 64:  # the first and last pixels of every row keep generic angles (a stale / zero value there must show)
+        idx = idx[(idx % m >= 4) & (idx % m < m - 4)]
+    if len(idx) == 0:
+        return b.reshape(*shape, 3)
+    cls = (np.arange(len(idx)) % 6)[:, None]
+    ai = inc[idx]
+    na = np.linalg.norm(ai, axis=1, keepdims=True)
+    e = np.cross(ai, rng.normal(size=ai.shape))
+    e /= np.linalg.norm(e, axis=1, keepdims=True)
+    nb = np.linalg.norm(b[idx], axis=1, keepdims=True)
+    k = 2.0 ** rng.integers(-8, 9, size=(len(idx), 1))
+    u = ai / na
+    b[idx] = np.select([cls == 0, cls == 1, cls == 2, cls == 3, cls == 4],
+                       [ai * k, -ai * k, (u + 1e-9 * e) * nb, (-u + 1e-9 * e) * nb, e * nb], (u + 1e-12 * e) * nb)
+    return b.reshape(*shape, 3)
+
+
+def size_case(rng, ctx, K, n, index):
+    """Every kernel on n per-pixel beams; the monitors judge every element of every return."""
+    per_pixel_incident = (n + index) % 2 == 0
+    u1, u2 = LEN_UNITS[(n + index) % 5], LEN_UNITS[(n // 2 + index) % 5]
+    a0 = geom.random_unit(rng, 1)[0] * 10.0 ** rng.uniform(-6, 6)
+    a = (geom.random_unit(rng, n) * 10.0 ** rng.uniform(-6, 6, size=(n, 1))) if per_pixel_incident else a0
+    b = bulk_pairs(rng, (n,), a)
+    va = vec(a, u1) if a.ndim == 1 else vec(a.reshape(n, 3), u1)
+    vb = vec(b.reshape(n, 3), u2)
+    ctx.hit(f'size class: {n} beam vectors')
+    tt = K.two_theta(incident_beam=va, scattered_beam=vb)
+    K.L1(incident_beam=va)
+    l2 = K.L2(scattered_beam=vb)
+    K.straight_scattered_beam(position=vb, sample_position=vec(a0, u2))
+    K.total_straight_beam_length_no_scatter(source_position=vec(a0, u2), position=vb)
+    K.total_beam_length(L1=l2, L2=l2)
+    ctx.event('size_class')
+    if tt.dims != ('pixel',) or tt.shape != (n,):
+        ctx.violation('wrong_unit_or_dims', f'two_theta of {n} beam vectors has sizes {dict(tt.sizes)}',
+                      {'family': 'sizes', 'n': n}, function='two_theta')
+    return ('size', n, per_pixel_incident, u1, u2)
+
+
+HEAVY_CASES = ('2**20 + 7 beam vectors, scalar incident beam (kernels)',
+               '2**21 + 5 beam vectors, per-pixel incident beam (kernels)',
+               '3 x 400001 (bank, pixel) positions (accessors)')
+HEAVY_LAYOUTS = ('one source and sample position', 'source_position per bank', 'sample_position per bank')
+
+
+def heavy_case(rng, ctx, scn, K, mon, seed):
+    """The one heavy case of a run: more than 2**20 beam vectors, every element judged by the (blocked)
+    long-double oracle through the kernel monitors; the accessor results are judged element-wise as well."""
+    mon.origin = 'heavy'
+    try:
+        # (1) 1-d, scalar incident beam
+        n = (1 << 20) + 7
+        u1, u2 = LEN_UNITS[seed % 5], LEN_UNITS[(seed // 5 + 2) % 5]
+        a = geom.random_unit(rng, 1)[0] * 10.0 ** rng.uniform(-6, 6)
+        vb = vec(bulk_pairs(rng, (n,), a), u2)
+        ctx.hit('heavy size: ' + HEAVY_CASES[0])
+        r = K.two_theta(incident_beam=vec(a, u1), scattered_beam=vb)
+        K.L2(scattered_beam=vb)
+        _heavy_shape(ctx, r, {'pixel': n}, HEAVY_CASES[0])
+        ctx.case(('heavy', HEAVY_CASES[0], u1, u2))
+        del vb, r
+        # (2) 1-d, per-pixel incident beam
+        n = (1 << 21) + 5
+        a = rng.normal(size=(n, 3)) * 10.0 ** rng.uniform(-6, 6, size=(n, 1))
+        va, vb = vec(a, u2), vec(bulk_pairs(rng, (n,), a), u1)
+        del a
+        ctx.hit('heavy size: ' + HEAVY_CASES[1])
+        r = K.two_theta(incident_beam=va, scattered_beam=vb)
+        _heavy_shape(ctx, r, {'pixel': n}, HEAVY_CASES[1])
+        ctx.case(('heavy', HEAVY_CASES[1], u1, u2))
+        del va, vb, r
+        # (3) 2-d detector through the accessors
+        shape = (3, 400001)
+        layout = HEAVY_LAYOUTS[seed % 3]
+        unit = LEN_UNITS[(seed + 1) % 5]
+        sample = rng.normal(size=3) * 10.0 ** rng.uniform(-2, 2)
+        a0 = geom.random_unit(rng, 1)[0] * 10.0 ** rng.uniform(-1, 3)
+        source = sample - a0
+        if layout == 'source_position per bank':
+            source = source[None, :] + rng.normal(size=(3, 3)) * 1e-2 * np.linalg.norm(a0)
+        elif layout == 'sample_position per bank':
+            sample = sample[None, :] + rng.normal(size=(3, 3)) * 1e-3 * np.linalg.norm(a0)
+        smp = sample if sample.ndim == 1 else sample[:, None, :]
+        src = source if source.ndim == 1 else source[:, None, :]
+        pos = smp + bulk_pairs(rng, shape, smp - src)
+        inc = np.squeeze(smp - src)          # what the code sees: IEEE differences of the float64 positions
+        sca = pos - smp
+        coords = {'source_position': vec(source, unit, dims=('bank',)),
+                  'sample_position': vec(sample, unit, dims=('bank',)),
+                  'position': vec(pos, unit, dims=('bank', 'pixel'))}
+        da = sc.DataArray(sc.zeros(dims=['bank', 'pixel'], shape=list(shape), dtype='float32'), coords=coords)
+        ctx.hit('heavy size: ' + HEAVY_CASES[2])
+        ctx.hit('heavy layout: ' + layout)
+        case = {'family': 'heavy: ' + HEAVY_CASES[2] + ', ' + layout, 'unit': unit,
+                'coords': {k: describe(v) for k, v in coords.items()}}
+        incb = inc if inc.ndim == 1 else inc[:, None, :]
+        l1 = geom.norm(inc)
+        l1b = l1 if np.ndim(l1) == 0 else l1[:, None]
+        l2 = geom.norm_blocks(sca)
+        want = {'two_theta': ('angle', geom.angle_blocks(incb, sca)), 'L2': ('rel', l2),
+                'L1': ('rel', l1),
+                'Ltotal_scatter': ('rel', np.asarray(l1b).astype(np.float64).astype(si.LD)
+                                   + l2.astype(np.float64).astype(si.LD)),
+                'Ltotal_noscatter': ('rel', geom.norm_blocks(pos - src))}
+        got = accessor_results(scn, da, tuple(want))
+        judge_results(ctx, got, want, unit, case, 'heavy.accessor', layout=layout)
+        for k in ('two_theta', 'L2', 'Ltotal_scatter', 'Ltotal_noscatter'):
+            _heavy_shape(ctx, got[k], {'bank': 3, 'pixel': shape[1]}, HEAVY_CASES[2] + ': ' + k)
+        ctx.case(('heavy', HEAVY_CASES[2], layout, unit))
+    except Exception as e:  # noqa: BLE001
+        ctx.violation('kernel_raised_outer', f'heavy case raised {type(e).__name__}: {e}', {'family': 'heavy'})
+    finally:
+        mon.origin = 'direct'
+
+
+def _heavy_shape(ctx, r, sizes, what):
+    ctx.event('heavy.result')
+    if dict(r.sizes) != sizes:
+        ctx.violation('wrong_unit_or_dims', f'{what}: result has sizes {dict(r.sizes)}, expected {sizes}',
+                      {'family': 'heavy', 'what': what}, function='two_theta')
+
+
+def forced_sweeps(rng, ctx, scn, K, mon, index, rep, n_regular=16):
     """The classes every shard runs whatever the random draws are."""
     kinds = sorted(set(CONTAINERS))
     # data with supplied lengths: every form x every route, containers / dtypes rotate with the shard
@@ -843,14 +1453,41 @@ def forced_sweeps(rng, ctx, scn, K, mon, index, rep):
                               f'{type(e).__name__}: {e}', {'family': 'nearly uniform positions', 'where': where,
                                                            'container': container}, container=container)
             j += 1
+    # round-6 classes: kernels as nodes of a caller's graph, lengths with variances, second use / feedback /
+    # display in between, sizes around powers of two (incl. empty)
+    try:
+        graph_node_case(rng, ctx, K, mon, index, rep)
+    except Exception as e:  # noqa: BLE001
+        mon.origin = 'direct'
+        ctx.violation('kernel_raised_outer', f'{type(e).__name__}: {e}', {'family': 'kernels as graph nodes'})
+    for j, form in enumerate(VARIANCE_FORMS):
+        try:
+            ctx.case(variances_case(rng, ctx, scn, K, mon, form, index + j + rep))
+        except Exception as e:  # noqa: BLE001
+            ctx.violation('kernel_raised_outer', f'lengths with variances ({form}): {type(e).__name__}: {e}',
+                          {'family': 'variances', 'form': form})
+    second_use_case(rng, ctx, scn, K, mon, index, rep)
+    for j, n in enumerate(SIZE_POINTS):
+        if (j + rep) % n_regular != index % n_regular:
+            continue
+        try:
+            ctx.case(size_case(rng, ctx, K, n, index + rep))
+        except Exception as e:  # noqa: BLE001
+            ctx.violation('kernel_raised_outer', f'{n} beam vectors: {type(e).__name__}: {e}',
+                          {'family': 'sizes', 'n': n})
 
 
 # ---------------------------------------------------------------- driver ---
+N_REGULAR = {'quick': 13, 'thorough': 16}
+
+
 def plan(tier, seed):
-    n_shards = 16
-    return [{'direct': 200 if tier == 'quick' else 10000, 'families': 40 if tier == 'quick' else 2000,
-             'sweeps': 1 if tier == 'quick' else 30}
-            for _ in range(n_shards)]
+    # quick: 13 regular shards + the heavy case on a shard of its own (with the two environment variants of the
+    # runner: one wave on 16 cores); thorough: the heavy case rides on the last shard
+    if tier == 'quick':
+        return [*({'direct': 250, 'families': 50, 'sweeps': 1, 'n_regular': 13} for _ in range(13)),
+                {'direct': 0, 'families': 0, 'sweeps': 0, 'n_regular': 13, 'heavy': True}]
+    return [{'direct': 10000, 'families': 2000, 'sweeps': 30, 'n_regular': 16, 'heavy': i == 15} for i in range(16)]
 
 
 def requirements(tier):
@@ -858,9 +1495,24 @@ def requirements(tier):
                           'total_beam_length', 'total_straight_beam_length_no_scatter', 'two_theta',
                           'accessor.two_theta', 'accessor.Ltotal_noscatter', 'invariance.rotation',
                           'invariance.translation', 'invariance.swap')}
+    ev.update({'accessor call: ' + c: 10 for c in CONVENTIONS})
+    ev.update({'graph_node': 7, 'variances': len(VARIANCE_FORMS), 'total_beam_length.variances': 4,
+               'second_use.second': 5 * len(BETWEEN), 'second_use.kernels_on_results': 4,
+               'second_use.graph_fresh': 7, 'size_class': len(SIZE_POINTS), 'heavy.accessor': 5,
+               'heavy.accessor.two_theta': 1, 'heavy.result': 6})
     return {'events': ev, 'forced': ['angle:' + c for c in ANGLE_CLASSES] + ['axis-aligned beamline, sample at origin', 'per-pixel incident, scalar scattered', 'beams along different dimensions']
             + ['accessor container ' + c for c in sorted(set(CONTAINERS))]
             + ['scatter flag given as ' + f.__name__ for f in FLAG_FORMS]
+            + ['accessor calling convention: ' + c for c in CONVENTIONS]
+            + ['per-pixel dim named ' + repr(d) for d in DIM_NAMES]
+            + ['kernel keywords in reversed order', 'kernel keywords in documented order']
+            + ['kernel operands along a dim named ' + repr(d) for d in DIM_NAMES]
+            + ['kernel as graph node: ' + k for k in KERNEL_NODES]
+            + ['graph node style: ' + x for x in NODE_STYLES]
+            + ['lengths with variances: ' + f for f in VARIANCE_FORMS]
+            + ['second use, in between: ' + b for b in BETWEEN]
+            + [f'size class: {n} beam vectors' for n in SIZE_POINTS]
+            + ['heavy size: ' + h for h in HEAVY_CASES]
             + ['supplied coordinates: ' + f for f in SUPPLIED_FORMS]
             + ['supplied length dtype ' + d for d in LENGTH_DTYPES]
             + ['nearly uniform per-pixel beams: ' + w for w in UNIFORM_WHICH]
@@ -893,7 +1545,7 @@ def run(shard, ctx):
         for i in range(shard['direct']):
             before = ctx.n_violations
             try:
-                sig, trivial = direct_case(rng, ctx, K)
+                sig, trivial = direct_case(rng, ctx, K, i)
             except Exception as e:  # noqa: BLE001
                 ctx.violation('kernel_raised_outer', f'{type(e).__name__}: {e}', {'family': 'direct'})
                 continue
@@ -909,8 +1561,12 @@ def run(shard, ctx):
                 ctx.violation('kernel_raised_outer', f'{type(e).__name__}: {e}', {'family': 'invariance'})
             kinds = sorted(set(CONTAINERS))
             container = kinds[i % len(kinds)]  # every kind of container in every shard
+            k_ = i // len(kinds) + shard['index']
             try:
-                sig = positions_case(rng, ctx, scn, K, mon, forced=container, flag_form=FLAG_FORMS[(i // len(kinds)) % 3 if i >= len(kinds) else i % 3])
+                sig = positions_case(rng, ctx, scn, K, mon, forced=container,
+                                     flag_form=FLAG_FORMS[(i + 2 * k_) % len(FLAG_FORMS)],
+                                     conv=CONVENTIONS[(i + k_) % len(CONVENTIONS)],
+                                     dim=DIM_NAMES[(i + 3 * k_) % len(DIM_NAMES)])
                 ctx.case(sig)
                 if i < 2:
                     ctx.sample({'family': 'accessors', 'signature': sig})
@@ -919,7 +1575,16 @@ def run(shard, ctx):
                 ctx.violation('accessor_raised', f'accessor on a {container} raised {type(e).__name__}: {e}',
                               {'family': 'accessors', 'container': container}, container=container)
         for rep in range(shard.get('sweeps', 1)):
-            forced_sweeps(rng, ctx, scn, K, mon, shard['index'], rep)
+            forced_sweeps(rng, ctx, scn, K, mon, shard['index'], rep, shard.get('n_regular', 16))
+        if shard.get('direct'):
+            # the kernels are keyword-only by signature: a positional call is refused by Python itself
+            try:
+                K.L1(vec(np.ones(3), 'm'))
+                ctx.count('not refused: keyword-only kernel called positionally')
+            except TypeError:
+                ctx.count('refused (TypeError): keyword-only kernel called positionally')
+        if shard.get('heavy'):
+            heavy_case(rng, ctx, scn, K, mon, shard['seed'])
     ctx.extra['mpmath_selftest'] = _selftest(ctx, rng)
 
 
@@ -951,7 +1616,9 @@ LEVEL_TEXT = ('exploration: every observed return of the geometry kernels (direc
               'through the shipped graphs) is compared with the Euclidean definition; 2theta against the exact '
               'angle between the float64 beams at 1e-14 rad in forced near-0 / pi/2 / pi classes, plus swap, '
               'rescale, rotation and translation invariance on observed values; data with supplied L1/L2/Ltotal '
-              'coordinates and nearly uniform per-pixel beams are judged per pixel against the same definition. '
+              'coordinates and nearly uniform per-pixel beams are judged per pixel against the same definition; '
+              'so are all calling conventions, caller-made graphs with the kernels as nodes, repeated use of the '
+              'same data and arrays of up to 2^21+5 beam vectors (every element). '
               'Sampled inputs, not a proof.')
 LEVEL_NOTE = ('trusted: numpy long double, mpmath (self-test), scipp vector containers and broadcasting, '
               'IEEE float64 subtraction as the model of a position difference')
